@@ -31,15 +31,28 @@ def dispatchC03M (op : String) (j : Json) : M Json := do
       let grid ← match fOpt j "wl" with
         | some w => asRats w
         | none => pure t.pts
-      let first := t.vals.headD 0
-      let last := t.vals.getLastD 0
-      match taperPts grid first last t.eval with
+      -- `scale` k: the spectrum is the composite table x k (not itself a table): its end values are sampled at
+      -- the would-be new end points, and the tapered table keeps what the composite samples (06626d1)
+      let scale ← match fOpt j "scale" with
+        | some kj => do pure (some (← asRat kj))
+        | none => pure none
+      let f : Rat → Rat := match scale with
+        | some k => fun x => t.eval x * k
+        | none => t.eval
+      let (first, last) := match scale, grid with
+        | some _, x0 :: x1 :: _ =>
+            let xl := grid.getLastD x0
+            let xl2 := (grid.dropLast).getLastD x0
+            (f (x0 ^ 2 / x1), f (xl ^ 2 / xl2))
+        | _, _ => (t.vals.headD 0, t.vals.getLastD 0)
+      match taperPts grid first last f with
       | none => pure (Json.mkObj [("ok", Json.mkObj [("same", Json.bool true),
-                                   ("vals", jRats (xs.map t.eval))])])
+                                   ("vals", jRats (xs.map f))])])
       | some (px, py) =>
-          let keep := match fOpt j "taper_keeps_flag" with
-            | some (.bool true) => t.keepNeg
-            | _ => false
+          let keep := match scale, fOpt j "taper_keeps_flag" with
+            | some _, _ => true
+            | none, some (.bool true) => t.keepNeg
+            | _, _ => false
           let (t2, _) := mkTable px py keep
           pure (Json.mkObj [("ok", Json.mkObj [("same", Json.bool false), ("pts", jRats t2.pts),
                   ("tvals", jRats t2.vals), ("vals", jRats (xs.map t2.eval)),
